@@ -171,6 +171,13 @@ fn seq_fresh(rng: &mut StdRng, id: String, len: usize, out: &mut Vec<Value>, per
                                 "orig_nodes": nodes_json(&bdd), "nodes": nodes_json(&copy), "dump": dump_json(&copy), "feat": features_json()}));
             bdd = copy;
         }
+        if rng.gen_range(0..100) < 4 {
+            // the documented repair step, on a live store: a public call like any other, it must change nothing
+            bdd.fix_import();
+            rec.step += 1;
+            rec.out.push(json!({"kind": "opaque", "id": format!("{}#{}", id, rec.step), "call": "repair", "nv": nv,
+                                "nodes": nodes_json(&bdd), "dump": dump_json(&bdd), "feat": features_json()}));
+        }
         rand_op(rng, &mut bdd, nv, &mut rec, i + 1 == len);
     }
     out.append(&mut rec.out);
@@ -196,7 +203,7 @@ fn seq_adf(rng: &mut StdRng, id: String, len: usize, out: &mut Vec<Value>) {
     for i in 0..len {
         if rng.gen_range(0..100) < 25 {
             // a semantics call in between: opaque for the store model, its effect on the tables is audited
-            let which = rng.gen_range(0..5);
+            let which = rng.gen_range(0..6);
             let name = match which {
                 0 => {
                     adf.grounded();
@@ -214,9 +221,13 @@ fn seq_adf(rng: &mut StdRng, id: String, len: usize, out: &mut Vec<Value>) {
                     let _ = adf.stable_count_optimisation_heu_a().count();
                     "count_a"
                 }
-                _ => {
+                4 => {
                     let _ = adf.stable_nogood(adf_bdd::adf::heuristics::Heuristic::Simple).count();
                     "ng"
+                }
+                _ => {
+                    adf.fix_import();
+                    "repair"
                 }
             };
             rec.step += 1;
